@@ -49,7 +49,21 @@ def matches_expect(native_res,pred):
     if isinstance(pred,(list,tuple)):           # verdict depends on iteration order: both classes must show up natively
         return len(set(verdict_class(o) for o in outs))>1
     if pred=='err': return all(o.startswith('err') for o in outs)
+    if pred=='ran-inspection': return any(ev for ev in native_res.get('events',[]))
     return len(set(outs))==1 and outs[0]==pred
+
+def summary_matches(native_res,exp):
+    if not exp: return True
+    sm=native_res.get('summaries') or []
+    if len(sm)!=1: return False
+    got=sm[0]
+    for part in ('materials','products'):
+        if part in exp:
+            want={p:{'sha256':''.join('%02x'%b for b in dg)} for p,dg in exp[part].items()}
+            if got.get(part)!=want: return False
+    for part in ('name','command'):
+        if part in exp and got.get(part)!=exp[part]: return False
+    return True
 
 def main():
     ap=argparse.ArgumentParser()
@@ -118,7 +132,7 @@ def main():
             except Unsupported as e:
                 inconclusive.append('%s: %s'%(agg['name'],e)); res=[]
             for s,r in zip(samples,res):
-                if matches_expect(r,s['expect']): cov['traces_validated_against_impl']+=1
+                if matches_expect(r,s['expect']) and summary_matches(r,s.get('expect_summary')) and (not s.get('expect_no_events') or all(not ev for ev in r.get('events',[]))): cov['traces_validated_against_impl']+=1
                 else:
                     inconclusive.append('%s: translator validation mismatch: interpreter=%s native=%s scenario=%s'%(agg['name'],s['expect'],r,json.dumps(s['scenario'])[:300]))
             for s,r in list(zip(samples,res))[:2]:
